@@ -462,7 +462,7 @@ func writeKey(sb *strings.Builder, v value) bool {
 		if v.t == nil {
 			sb.WriteString("nil")
 		} else {
-			sb.WriteString(v.t.String())
+			sb.WriteString(types.Unalias(v.t).String())
 			sb.WriteByte(':')
 			if v.t == rtypeType {
 				return writeKey(sb, v.v)
